@@ -6,12 +6,16 @@
    F3 what the receiver's socket hands out is exactly one original datagram (size and content)
    F4 a datagram whose fragments all arrived while a reassembly slot tracked it within the configured number of
       gaps is delivered (obligation computed with the same slot / interval-set bookkeeping the property describes)
-   F5 at quiescence every accepted datagram that fits the fragmentation buffer was transmitted completely *)
+   F5 at quiescence every accepted datagram that fits the fragmentation buffer was transmitted completely
+   Q1 / Q2 (C13, pending fragments): a poll without frames, with no socket call since the node's previous poll, at an
+      instant before the deadline poll_at gave after that poll (or when it gave none) transmits nothing; after a
+      poll that neither received nor transmitted (on a device without back-pressure), poll_at is absent or strictly later *)
 EXTENDS Integers, Sequences, FiniteSets, TLC, Json, IOUtils
 Rec == ndJsonDeserialize(IOEnv.TRACE)
-VARIABLES l, run, cfg, viol, hits, nruns, snd, done, acc, slots, due, got, refused
-vars == <<l, run, cfg, viol, hits, nruns, snd, done, acc, slots, due, got, refused>>
-Rules == {"F1", "F2", "F3", "F4", "F5", "K2", "PANIC"}
+VARIABLES l, run, cfg, viol, hits, nruns, snd, done, acc, slots, due, got, refused, lastPa
+vars == <<l, run, cfg, viol, hits, nruns, snd, done, acc, slots, due, got, refused, lastPa>>
+Rules == {"F1", "F2", "F3", "F4", "F5", "K2", "Q1", "Q2", "PANIC"}
+EPS == {0, 1, 2}
 Max(a, b) == IF a > b THEN a ELSE b
 Min(a, b) == IF a < b THEN a ELSE b
 Add(v, x) == IF Len(v) >= 24 THEN v ELSE Append(v, x)
@@ -27,7 +31,7 @@ IntAdd(s, lo, hi) ==
        ELSE IF lo > h[2] THEN <<h>> \o IntAdd(Tail(s), lo, hi)
        ELSE IntAdd(Tail(s), Min(lo, h[1]), Max(hi, h[2]))
 Init == /\ l = 1 /\ run = -1 /\ cfg = [mtu |-> 0] /\ viol = <<>> /\ hits = [r \in Rules |-> 0] /\ nruns = 0
-        /\ snd = <<>> /\ done = {} /\ acc = <<>> /\ slots = <<>> /\ due = {} /\ got = {} /\ refused = {}
+        /\ snd = <<>> /\ done = {} /\ acc = <<>> /\ slots = <<>> /\ due = {} /\ got = {} /\ refused = {} /\ lastPa = [e \in EPS |-> -2]
 
 Idx(s, P(_)) == LET I == {i \in 1..Len(s) : P(s[i])} IN IF I = {} THEN 0 ELSE CHOOSE i \in I : \A j \in I : i <= j
 Remove(s, i) == SubSeq(s, 1, i - 1) \o SubSeq(s, i + 1, Len(s))
@@ -81,9 +85,10 @@ Step ==
      CASE r.ev = "reset" ->
             /\ Flush
             /\ run' = r.run /\ cfg' = r.cfg /\ viol' = <<>> /\ nruns' = nruns + 1 /\ hits' = hits
-            /\ snd' = <<>> /\ done' = {} /\ acc' = <<>> /\ slots' = <<>> /\ due' = {} /\ got' = {} /\ refused' = {}
+            /\ snd' = <<>> /\ done' = {} /\ acc' = <<>> /\ slots' = <<>> /\ due' = {} /\ got' = {} /\ refused' = {} /\ lastPa' = [e \in EPS |-> -2]
        [] r.ev = "api" /\ r.call = "send" ->
             /\ acc' = IF r.ok THEN Append(acc, [did |-> r.did, total |-> r.total, kind |-> r.kind]) ELSE acc
+            /\ lastPa' = [lastPa EXCEPT ![r.ep] = -2]
             /\ UNCHANGED <<run, cfg, viol, hits, nruns, snd, done, slots, due, got, refused>>
        [] r.ev = "api" /\ r.call = "recv" ->
             LET i == Idx(acc, LAMBDA x : x.did = r.did)
@@ -91,13 +96,20 @@ Step ==
             IN /\ viol' = IF ok \/ (r.kind = "icmp" /\ i # 0 /\ r.diff = -1) THEN viol ELSE Add(viol, <<l, "F3", r.ep, r.did, r.size, r.diff>>)
                /\ got' = got \cup {r.did}
                /\ hits' = [hits EXCEPT !["F3"] = @ + 1]
+               /\ lastPa' = [lastPa EXCEPT ![r.ep] = -2]
                /\ UNCHANGED <<run, cfg, nruns, snd, done, acc, slots, due, refused>>
        [] r.ev = "poll" ->
             LET a == SendFold(r.ep, [snd |-> snd, done |-> done, v |-> <<>>], r.out)
                 b == RecvFold(r.ep, [slots |-> Alive(slots, r.ep, r.now), due |-> due, refused |-> refused], r.rx, r.now)
+                lp == lastPa[r.ep]
+                early == r.rx = <<>> /\ lp # -2 /\ (lp = -1 \/ r.now < lp)
+                q1 == IF early /\ r.out # <<>> THEN << <<l, "Q1", r.ep, r.now, lp>> >> ELSE <<>>
+                idle == r.rx = <<>> /\ r.out = <<>>
+                q2 == IF idle /\ ~("bp" \in DOMAIN r /\ r.bp) /\ r.pa # -1 /\ r.pa <= r.now THEN << <<l, "Q2", r.ep, r.now, r.pa>> >> ELSE <<>>
             IN /\ snd' = a.snd /\ done' = a.done /\ slots' = b.slots /\ due' = b.due /\ refused' = b.refused
-               /\ viol' = AddAll(viol, a.v)
-               /\ hits' = [hits EXCEPT !["F1"] = @ + Len(r.out), !["F2"] = @ + Len(r.out)]
+               /\ viol' = AddAll(viol, a.v \o q1 \o q2)
+               /\ lastPa' = [lastPa EXCEPT ![r.ep] = r.pa]
+               /\ hits' = [hits EXCEPT !["F1"] = @ + Len(r.out), !["F2"] = @ + Len(r.out), !["Q1"] = @ + (IF early THEN 1 ELSE 0), !["Q2"] = @ + (IF idle THEN 1 ELSE 0)]
                /\ UNCHANGED <<run, cfg, nruns, acc, got>>
        [] r.ev = "end" ->
             LET missTx == {i \in 1..Len(acc) : acc[i].total + 20 <= cfg.fragbuf /\ acc[i].did \notin done}
@@ -107,12 +119,12 @@ Step ==
                 f4 == IF missRx # {} THEN << <<l, "F4", CHOOSE d \in missRx : TRUE, Cardinality(missRx)>> >> ELSE <<>>
             IN /\ viol' = AddAll(viol, f5 \o f4)
                /\ hits' = [hits EXCEPT !["F5"] = @ + Len(acc), !["F4"] = @ + Cardinality(due)]
-               /\ UNCHANGED <<run, cfg, nruns, snd, done, acc, slots, due, got, refused>>
+               /\ UNCHANGED <<run, cfg, nruns, snd, done, acc, slots, due, got, refused, lastPa>>
        [] r.ev = "panic" ->
             /\ viol' = Add(viol, <<l, "PANIC", r.ep, r.msg>>)
             /\ hits' = [hits EXCEPT !["PANIC"] = @ + 1]
-            /\ UNCHANGED <<run, cfg, nruns, snd, done, acc, slots, due, got, refused>>
-       [] OTHER -> UNCHANGED <<run, cfg, viol, hits, nruns, snd, done, acc, slots, due, got, refused>>
+            /\ UNCHANGED <<run, cfg, nruns, snd, done, acc, slots, due, got, refused, lastPa>>
+       [] OTHER -> UNCHANGED <<run, cfg, viol, hits, nruns, snd, done, acc, slots, due, got, refused, lastPa>>
 Spec == Init /\ [][Step]_vars
 Final == l = Len(Rec) + 1 => /\ Flush
                              /\ PrintT(<<"FINAL", ToJson([events |-> Len(Rec), runs |-> nruns, hits |-> hits])>>)
